@@ -352,7 +352,9 @@ Section Model.
     else
     match decode_content t body with
     | CBad => if e =? 0 then (s, []) else (s, [OAlertOut 2 50; OErr])
-    | CAck => (mark W prot s e q, [OMark e q; OAck e q body])
+    | CAck =>
+        (* an unprotected ACK is discarded: nothing vouches for it *)
+        if e =? 0 then (s, []) else (mark W prot s e q, [OMark e q; OAck e q body])
     | CAlert level desc =>
         let s1 := mark W prot s e q in
         let reply := if desc =? 0 then [OAlertOut 1 0] else [] in
